@@ -291,6 +291,17 @@ var c07Targets = []struct {
 	{"(*T)(nil)", func() interface{} { return (*c07T)(nil) }},
 	{"**T nil", func() interface{} { var p *c07T; return &p }},
 	{"T by value", func() interface{} { return c07T{} }},
+	// pre-filled interface{} slots that hold a composite by value (not writable in place)
+	{"map with struct value", func() interface{} { return &map[string]interface{}{"a": c07T{}, "s": c07T{}, "l": c07T{}, "i": c07T{}} }},
+	{"iface fields with struct values", func() interface{} {
+		return &struct{ A, S, L, I, E interface{} }{c07T{}, c07T{}, [2]c07T{}, map[string]int(nil), []interface{}{c07T{}, [1]int{}}}
+	}},
+	{"[]iface with struct values", func() interface{} {
+		return &struct{ L []interface{}; S []interface{} }{[]interface{}{c07T{}, c07T{}}, []interface{}{c07T{}}}
+	}},
+	{"iface fields with arrays and nil maps", func() interface{} {
+		return &struct{ A, S, L, I interface{} }{[1]int{}, map[string]c07T(nil), [2]interface{}{}, [1]c07T{}}
+	}},
 	{"map nil", func() interface{} { return map[string]interface{}(nil) }},
 	{"*map nil", func() interface{} { var m map[string]interface{}; return &m }},
 	{"map[int]int", func() interface{} { return map[int]int{} }},
